@@ -223,10 +223,21 @@ FAULT_STMT = {
     "raise_from_none": ["try:", "    r = {E0}", "except Exception:", "    raise C18Error('c18 none') from None"],
     "reraise_bare": ["try:", "    r = {E0}", "except Exception:", "    q = 1", "    raise"],
     "reraise_var": ["try:", "    r = {E0}", "except Exception as err:", "    raise err"],
+    # the statement's own operation raises (not one of its operand expressions): the interpreter evaluates these
+    # through nodes it synthesises or through its assignment/deletion routines, so the line must come from the
+    # statement itself
+    "aug_mod_zero": ["r = 7", "r %= (x - x)"],
+    "aug_div_zero": ["r = 1", "r /= (x - x)"],
+    "aug_pow_overflow": ["r = 10.0", "r **= 400"],
+    "aug_subscript": ["r = [5]", "r[0] //= (x - x)"],
+    "aug_ml": ["r = 1", "r /= (", "    x - x", ")"],
+    "del_item": ["r = {}", "del r['c18k']"],
+    "store_index": ["r = []", "r[x + 3] = 1"],
+    "store_attr": ["r = 1", "r.c18_no_attr = 1"],
 }
 CHAINED_FAULTS = {"raise_from_new", "raise_from_caught", "raise_from_deep"}
 CONTEXT_FAULTS = {"raise_in_except"}
-ML_FAULTS = {"raise_ml", "assert_ml"}
+ML_FAULTS = {"raise_ml", "assert_ml", "aug_ml"}
 BUILTIN_EXCS = [
     "Exception", "RuntimeError", "ValueError", "KeyError", "IndexError", "LookupError", "ArithmeticError",
     "ZeroDivisionError", "OverflowError", "FloatingPointError", "AssertionError", "AttributeError", "TypeError",
